@@ -2,14 +2,21 @@ package linksys
 
 import (
 	"bytes"
+	"context"
 	"errors"
 	"fmt"
+	"io"
 	"sort"
 
+	cid "github.com/ipfs/go-cid"
 	"github.com/ipld/go-ipld-prime/datamodel"
+	"github.com/ipld/go-ipld-prime/fluent/qp"
 	"github.com/ipld/go-ipld-prime/linking"
 	cidlink "github.com/ipld/go-ipld-prime/linking/cid"
 	"github.com/ipld/go-ipld-prime/node/basicnode"
+	"github.com/ipld/go-ipld-prime/traversal"
+	"github.com/ipld/go-ipld-prime/traversal/selector"
+	"github.com/ipld/go-ipld-prime/traversal/selector/builder"
 
 	"verif/gen"
 	"verif/model"
@@ -27,7 +34,7 @@ func (S06) Level() string { return "fault_enumeration" }
 func (S06) Info() scen.Info {
 	return scen.Info{
 		Rule: "unit = one seeded stored block (codec x multihash x digest length x value) plus a second block; per unit: a fault-free run records block length, the library's read offsets, the store's write count and the encoder's accessor count; then one run per fault: every truncation length and a bit flip at every offset (all 8 bits for blocks <=64 bytes) for blocks <=512 bytes, read-trace boundaries +-1 and 64 seeded interior offsets for larger ones; 6 extensions; substitution; a read error at every recorded read boundary and seeded interior offsets (sticky/one-shot x with/without data); open error; seeded two-fault sequences; each under 3 chunkings; a write error at every write index, commit error, and an encoder-input failure at every accessor position. Every run performs Load, LoadRaw, LoadPlusRaw and Fill. " +
-			"distinct_nontrivial counts distinct hash(codec, multihash, fault kind, position, chunking, per-function outcome class) over runs whose fault actually fired. Later additions: an ADL-style NodeReifier loading a substituted block through the link system it is handed.",
+			"distinct_nontrivial counts distinct hash(codec, multihash, fault kind, position, chunking, per-function outcome class) over runs whose fault actually fired. Later additions: an ADL-style NodeReifier loading a substituted block through the link system it is handed; the block reached in three places of a parent block by WalkAdv / WalkMatching / WalkTransforming / Focus / Get / FocusedTransform, with the first, second or third of those loads answered by a corrupted or substituted copy (hash-mismatch error required, no callback after that load).",
 		DistinctSet: "fault_case",
 		Assumptions: []string{
 			"the oracle hashes the bytes the simulated reader actually delivered with Go stdlib / x/crypto hashes, never with the library",
@@ -44,7 +51,7 @@ func (S06) Info() scen.Info {
 			"goroutine scheduling":  "stub: seeded one-at-a-time scheduler (a second client loads another block while the fault is in flight)",
 		},
 		QuickUnits: 240, ThoroughUnits: 12000, QuickSecs: 240, ThoroughSecs: 1200,
-		ProbeKeys: []string{"probe.decode_failed_then_drained", "probe.error_at_eof_position", "probe.hash_collision_short_digest", "probe.late_error_after_complete_block", "probe.second_client_interleaved", "probe.hashmismatch_precedence_over_decode_error", "probe.reifier_loads_through_given_linksystem", "probe.kind_specific_prototype", "probe.consumer_used_writeto"},
+		ProbeKeys: []string{"probe.decode_failed_then_drained", "probe.error_at_eof_position", "probe.hash_collision_short_digest", "probe.late_error_after_complete_block", "probe.second_client_interleaved", "probe.hashmismatch_precedence_over_decode_error", "probe.reifier_loads_through_given_linksystem", "probe.kind_specific_prototype", "probe.consumer_used_writeto", "probe.walk_load_met_bad_copy", "probe.walk_later_load_met_bad_copy"},
 		EventsKey: "events",
 	}
 }
@@ -58,7 +65,7 @@ type baseInfo struct {
 }
 
 var fnNames = []string{"Load", "LoadRaw", "LoadPlusRaw", "Fill"}
-var kindNames = []string{"none", "trunc", "flip", "extend", "subst", "readerr", "openerr", "multi", "writeerr", "commiterr", "encfail", "reread-differs"}
+var kindNames = []string{"none", "trunc", "flip", "extend", "subst", "readerr", "openerr", "multi", "writeerr", "commiterr", "encfail", "reread-differs", "walk", "cancel-midway"}
 
 func extBytes(i int, valid []byte) []byte {
 	switch i % 6 {
@@ -194,6 +201,20 @@ func (S06) RunTape(t *sim.Tape, st *sim.Stats, keepLog bool) *sim.Outcome {
 			// the first pass over the block delivers it intact; a consumer that seeks back to the start
 			// is given another block's bytes from then on
 			f.RewindSubst = B2
+		case 12:
+			// one of the walk's loads of the block meets a corrupted or substituted copy
+			switch bit % 4 {
+			case 0:
+				f.Kind = "flip"
+			case 1:
+				f.Kind = "trunc"
+			case 2:
+				f.Kind = "extend"
+				f.Ext = extBytes(ext, B2)
+			default:
+				f.Kind = "subst"
+				f.Subst = B2
+			}
 		case 7:
 			// two-fault sequence: a corruption plus a read error further on
 			f.Kind = []string{"flip", "trunc", "extend"}[ext%3]
@@ -213,7 +234,7 @@ func (S06) RunTape(t *sim.Tape, st *sim.Stats, keepLog bool) *sim.Outcome {
 	// multi-block ADL, loads a further block through THAT link system. Storage answers with another
 	// block's bytes; nobody declared storage trusted, so every one of those loads must fail.
 	inReifier := false
-	if t.Bool("cfg.reifier") && L2.Binary() != L.Binary() {
+	if t.Bool("cfg.reifier") && L2.Binary() != L.Binary() && kind != 12 {
 		lsys.NodeReifier = func(lc linking.LinkContext, n datamodel.Node, ls *linking.LinkSystem) (datamodel.Node, error) {
 			if inReifier || s.Cur() != 0 {
 				return n, nil
@@ -242,7 +263,10 @@ func (S06) RunTape(t *sim.Tape, st *sim.Stats, keepLog bool) *sim.Outcome {
 	info := &baseInfo{LenB: len(B), Codec: codec.Name}
 	fired := false
 
-	if kind <= 7 || kind == 11 {
+	if kind == 12 {
+		// ---- the block is reached by a traversal, several times: every one of those loads is a load ----
+		fired = walkLoads(o, st, t, s, seam, &lsys, codec, L, L2, B, B2, mkFault, benign)
+	} else if kind <= 7 || kind == 11 {
 		seam.NextRead = func(l datamodel.Link) *simstore.ReadFault {
 			if s.Cur() == 0 && inReifier && l.Binary() == L2.Binary() {
 				return &simstore.ReadFault{Kind: "subst", Subst: B, Err2At: -1, Tag: 2}
@@ -328,8 +352,17 @@ func (S06) RunTape(t *sim.Tape, st *sim.Stats, keepLog bool) *sim.Outcome {
 		keysBefore := be.nkeys()
 		commitsBefore := len(seam.Commits)
 		syncCap := caps&1 != 0 // half the store-side runs hand the library a writer that also offers Sync()
+		// kind 13: the context the store was called with is cancelled once write #pos went through
+		sctx, cancel := context.WithCancel(context.Background())
+		defer cancel()
 		seam.NextWrite = func() *simstore.WriteFault {
 			switch kind {
+			case 13:
+				return &simstore.WriteFault{Sync: syncCap, After: func(i int) {
+					if i == pos {
+						cancel()
+					}
+				}}
 			case 8:
 				return &simstore.WriteFault{Kind: "writeerr", AtWrite: pos, Partial: pos2, OneShot: sticky, Sync: syncCap}
 			case 9:
@@ -342,7 +375,11 @@ func (S06) RunTape(t *sim.Tape, st *sim.Stats, keepLog bool) *sim.Outcome {
 			s.Yield("op")
 			var lnk datamodel.Link
 			var err error
-			pan := catch(func() { lnk, err = lsys.Store(linking.LinkContext{}, lp.LinkPrototype, wrapFault(n3, ctr)) })
+			lc := linking.LinkContext{}
+			if kind == 13 {
+				lc.Ctx = sctx
+			}
+			pan := catch(func() { lnk, err = lsys.Store(lc, lp.LinkPrototype, wrapFault(n3, ctr)) })
 			var wr *simstore.Writer
 			if len(seam.Writers) > 0 {
 				wr = seam.Writers[len(seam.Writers)-1]
@@ -371,6 +408,21 @@ func (S06) RunTape(t *sim.Tape, st *sim.Stats, keepLog bool) *sim.Outcome {
 					o.Fail("store-commit-error-lost", sig, "committer returned an error but Store returned a nil error")
 				} else if !errors.Is(err, simstore.ErrInjectedCommit) {
 					st.Inc("probe.commit_error_rewrapped")
+				}
+			case kind == 13 && wr != nil && wr.Calls > pos:
+				// cancelled with writes still to come: either the store fails and commits nothing, or it
+				// completes -- then what it committed is the whole encoding, under the whole encoding's link
+				fired = true
+				if err != nil {
+					if len(seam.Commits) > commitsBefore || be.nkeys() != keysBefore {
+						o.Fail("store-committed-after-failure", sig, "Store cancelled after its write #%d failed with %v, yet a block was committed", pos, err)
+					}
+				} else if b, ok := be.bytesOf(lnk); !ok {
+					o.Fail("store-link-hash", sig, "Store (context cancelled after write #%d) returned %v with a nil error but storage has no such block", pos, lnk)
+				} else if !hashesTo(lnk, b) {
+					o.Fail("store-link-hash", sig, "Store (context cancelled after write #%d) returned %v, but the bytes committed under it do not hash to it", pos, lnk)
+				} else if got, derr := decodeBlock(&lsys, lnk, b); derr != nil || !model.Equal(got.Canon(model.SortLexical), V3.Canon(model.SortLexical)) {
+					o.Fail("store-committed-partial-block", sig, "Store (context cancelled after write #%d of %d) returned a nil error and link %v, but the block committed under it (%d bytes) is not the node's encoding: it decodes to %s (err %v), the node is %s", pos, wr.Calls, lnk, len(b), got, derr, V3.Canon(codec.SortMode))
 				}
 			case kind == 10 && ctr.fired:
 				fired = true
@@ -460,6 +512,177 @@ func (S06) RunTape(t *sim.Tape, st *sim.Stats, keepLog bool) *sim.Outcome {
 		st.Sample(map[string]interface{}{"codec": codec.Name, "prototype": fmt.Sprintf("%+v", lp.Prefix), "backend": be.name, "block_len": len(B), "value": V.String(), "read_offsets": info.Offsets})
 	}
 	return o
+}
+
+// walkLoads: a parent block links to the block under test from several places; a walk (or a focus)
+// over the parent loads it once per place. Storage answers one of those loads -- the first, or a
+// later one, after an intact answer -- with a corrupted or substituted copy. Nobody declared storage
+// trusted: the call must end in a hash-mismatch error, and no callback may be handed anything at or
+// below the place whose load met the bad copy.
+func walkLoads(o *sim.Outcome, st *sim.Stats, t *sim.Tape, s *sim.Sim, seam *simstore.Seam, lsys *linking.LinkSystem, codec gen.Codec,
+	L, L2 datamodel.Link, B, B2 []byte, mkFault func() *simstore.ReadFault, benign func() *simstore.ReadFault) (fired bool) {
+	fn := t.Choice(7, "w.fn")
+	nth := t.Choice(3, "w.nth")
+	fnName := []string{"WalkAdv", "WalkMatching", "WalkTransforming", "Focus", "Get", "FocusedTransform", "WalkAdv+LinkVisitOnlyOnce"}[fn]
+	sig := codec.Name + " " + fnName + " walk"
+	// the parent: a dag-cbor or dag-json block (the only codecs that carry links)
+	parent, err := qp.BuildList(basicnode.Prototype.Any, -1, func(la datamodel.ListAssembler) {
+		qp.ListEntry(la, qp.Link(L))
+		qp.ListEntry(la, qp.String("between"))
+		qp.ListEntry(la, qp.Map(-1, func(ma datamodel.MapAssembler) {
+			qp.MapEntry(ma, "again", qp.Link(L))
+			qp.MapEntry(ma, "other", qp.Link(L2))
+		}))
+		qp.ListEntry(la, qp.Link(L))
+	})
+	if err != nil {
+		o.Fail("harness", sig, "building the parent: %v", err)
+		return false
+	}
+	pcodec := uint64(0x71)
+	if t.Bool("w.parentjson") {
+		pcodec = 0x0129
+	}
+	seam.NextRead = func(datamodel.Link) *simstore.ReadFault { return benign() }
+	P, err := lsys.Store(linking.LinkContext{}, cidlink.LinkPrototype{Prefix: cid.Prefix{Version: 1, Codec: pcodec, MhType: 0x12, MhLength: 32}}, parent)
+	if err != nil {
+		o.Fail("setup-store", sig, "fault-free Store of the parent block failed: %v", err)
+		return false
+	}
+	root, err := lsys.Load(linking.LinkContext{}, P, basicnode.Prototype.Any)
+	if err != nil {
+		o.Fail("setup-store", sig, "fault-free Load of the parent block failed: %v", err)
+		return false
+	}
+	type visit struct {
+		path string
+		at   int // number of read-opens before it
+	}
+	var visits []visit
+	opensOfL := 0
+	badPath, badAt := "", -1
+	seam.OnOpen = func(lc linking.LinkContext, l datamodel.Link) {}
+	seam.NextRead = func(l datamodel.Link) *simstore.ReadFault {
+		if s.Cur() == 0 && l.Binary() == L.Binary() {
+			opensOfL++
+			if opensOfL-1 == nth {
+				f := mkFault()
+				f.Tag = 1
+				return f
+			}
+		}
+		return benign()
+	}
+	s.Go("walker", func() {
+		s.Yield("op")
+		before := len(seam.Readers)
+		cfg := &traversal.Config{LinkSystem: *lsys, LinkVisitOnlyOnce: fn == 6, LinkTargetNodePrototypeChooser: func(datamodel.Link, linking.LinkContext) (datamodel.NodePrototype, error) {
+			return basicnode.Prototype.Any, nil
+		}}
+		// the generated blocks hold links to blocks nobody stored: the walk passes those by
+		inner := cfg.LinkSystem.StorageReadOpener
+		cfg.LinkSystem.StorageReadOpener = func(lc linking.LinkContext, l datamodel.Link) (io.Reader, error) {
+			if b := l.Binary(); b != L.Binary() && b != L2.Binary() {
+				return nil, traversal.SkipMe{}
+			}
+			return inner(lc, l)
+		}
+		ssb := builder.NewSelectorSpecBuilder(basicnode.Prototype.Any)
+		sel, _ := ssb.ExploreRecursive(selector.RecursionLimitNone(), ssb.ExploreUnion(ssb.Matcher(), ssb.ExploreAll(ssb.ExploreRecursiveEdge()))).Selector()
+		note := func(p traversal.Progress) {
+			visits = append(visits, visit{p.Path.String(), len(seam.Readers)})
+			s.Yield("callback")
+		}
+		focusPath := []string{"0", "2/again", "3"}[nth]
+		var werr error
+		pan := catch(func() {
+			prog := traversal.Progress{Cfg: cfg}
+			switch fn {
+			case 0, 6:
+				werr = prog.WalkAdv(root, sel, func(p traversal.Progress, n datamodel.Node, r traversal.VisitReason) error { note(p); return nil })
+			case 1:
+				werr = prog.WalkMatching(root, sel, func(p traversal.Progress, n datamodel.Node) error { note(p); return nil })
+			case 2:
+				_, werr = prog.WalkTransforming(root, sel, func(p traversal.Progress, n datamodel.Node) (datamodel.Node, error) { note(p); return n, nil })
+			case 3:
+				nth = 0 // a focus reaches the block once: that load is the one
+				werr = prog.Focus(root, datamodel.ParsePath(focusPath), func(p traversal.Progress, n datamodel.Node) error { note(p); return nil })
+			case 4:
+				nth = 0
+				var n datamodel.Node
+				n, werr = prog.Get(root, datamodel.ParsePath(focusPath))
+				if werr == nil && n != nil {
+					visits = append(visits, visit{focusPath, len(seam.Readers)})
+				}
+			case 5:
+				nth = 0
+				_, werr = prog.FocusedTransform(root, datamodel.ParsePath(focusPath), func(p traversal.Progress, n datamodel.Node) (datamodel.Node, error) { note(p); return n, nil }, false)
+			}
+		})
+		var rd *simstore.Reader
+		rdIdx := -1
+		for i, r := range seam.Readers[before:] {
+			if r.F.Tag == 1 {
+				rd, rdIdx = r, before+i
+				break
+			}
+		}
+		_ = badPath
+		_ = badAt
+		switch {
+		case pan != "":
+			o.Fail("panic", sig, "%s panicked: %s", fnName, pan)
+		case rd == nil:
+			// the walk never made that load (visit-once, fewer places than planned, or it ended earlier
+			// at one of the generated blocks' links to blocks nobody stored): an ordinary walk
+			var hm linking.ErrHashMismatch
+			if errors.As(werr, &hm) {
+				o.Fail("benign-delivery-failed", sig, "%s over intact blocks reported a hash mismatch: %v", fnName, werr)
+			}
+		case rd.R.ErrAt >= 0 || rd.R.OpenErr != nil:
+		case hashesTo(L, rd.R.D):
+			// an intact copy (a flip that the plan could not place), or a collision on a short digest
+			var hm linking.ErrHashMismatch
+			if bytes.Equal(rd.R.D, B) && errors.As(werr, &hm) {
+				o.Fail("benign-delivery-failed", sig, "%s over intact blocks reported a hash mismatch: %v", fnName, werr)
+			}
+		default:
+			fired = true
+			st.Inc("probe.walk_load_met_bad_copy")
+			if nth > 0 {
+				st.Inc("probe.walk_later_load_met_bad_copy")
+			}
+			var hm linking.ErrHashMismatch
+			if werr == nil {
+				o.Fail("unverified-data-returned", sig, "%s returned no error although load #%d of link %s (of the block it reaches in three places) was answered with %d bytes that do not hash to the link", fnName, nth+1, L, len(rd.R.D))
+			} else if !errors.As(werr, &hm) {
+				o.Fail("hash-mismatch-precedence", sig, "load #%d of the block was answered with bytes that do not hash to the link, but %s returned %T %v, not a hash-mismatch error", nth+1, fnName, werr, werr)
+			}
+			// no callback for anything that came out of the bad copy: after that load was opened, the
+			// walk may only have ended
+			for _, v := range visits {
+				if v.at > rdIdx {
+					o.Fail("unverified-data-returned", sig, "%s handed its callback the node at %q after load #%d of the block had been answered with bytes that do not hash to its link", fnName, v.path, nth+1)
+					break
+				}
+			}
+		}
+		s.Log.Add(fmt.Sprintf("WALK %s nth=%d err=%v visits=%d", fnName, nth, werr != nil, len(visits)))
+	})
+	return fired
+}
+
+// decodeBlock decodes stored bytes with the decoder registered for the link's codec (fault-free).
+func decodeBlock(lsys *linking.LinkSystem, l datamodel.Link, b []byte) (*model.V, error) {
+	dec, err := lsys.DecoderChooser(l)
+	if err != nil {
+		return nil, err
+	}
+	nb := basicnode.Prototype.Any.NewBuilder()
+	if err := dec(nb, bytes.NewReader(b)); err != nil {
+		return nil, err
+	}
+	return model.FromNode(nb.Build())
 }
 
 type loadRes struct {
@@ -563,10 +786,12 @@ func judgeLoad(o *sim.Outcome, st *sim.Stats, codec gen.Codec, fn, kind string, 
 	if rd.R.ErrAt == len(B) && rd.R.ErrAt >= 0 {
 		st.Inc("probe.error_at_eof_position")
 	}
-	if surfaced && res.err == nil && bytes.Equal(delivered, B) {
-		// the error arrived only after the complete block had been delivered (the
-		// decoder's end-of-input probe met it): the result is complete, verified
-		// data, not partial data. Judged below like any success.
+	if surfaced && res.err == nil && bytes.Equal(delivered, rd.R.D) {
+		// the error arrived only after the complete stream had been delivered (the
+		// decoder's end-of-input probe met it): the result is complete data, not
+		// partial data. Judged below like any success -- the delivered bytes must hash
+		// to the link (they do when they are the stored block, or when a corrupted copy
+		// collides with it on a one-byte digest, which the property leaves open).
 		st.Inc("probe.late_error_after_complete_block")
 		surfaced = false
 	}
@@ -760,6 +985,20 @@ func (sc S06) Unit(u *scen.Unit) {
 	u.St.Inc("enum.openerr")
 	ex(map[string]int{"f.kind": 11})
 	u.St.Inc("enum.reread_differs")
+	// the block reached by a traversal in three places: every entry point x which of its loads meets
+	// the bad copy x the four corruptions, at a seeded position
+	for fn := 0; fn < 7; fn++ {
+		for nth := 0; nth < 3; nth++ {
+			if (fn >= 3 && fn <= 5 || fn == 6) && nth > 0 && fn != 3 && fn != 4 && fn != 5 {
+				continue // visit-once reaches the block once
+			}
+			for c := 0; c < 4; c++ {
+				u.Exec(map[string]int{"f.kind": 12, "w.fn": fn, "w.nth": nth, "f.bit": c, "f.ext": fn + nth + c,
+					"f.pos": int(sim.SeedFor(int64(u.Seed), "wpos", fn*12+nth*4+c) % uint64(n+1)), "f.chunk": (fn + nth + c) % 4})
+				u.St.Inc("enum.walk_loads")
+			}
+		}
+	}
 	multi := 8
 	if u.Tier == "thorough" {
 		multi = 40
@@ -770,6 +1009,10 @@ func (sc S06) Unit(u *scen.Unit) {
 		u.St.Inc("enum.multi")
 	}
 	// store side
+	for j := 0; j+1 < bi.NWrites && j < 200; j++ {
+		u.Exec(map[string]int{"f.kind": 13, "f.pos": j, "f.caps": j & 1})
+		u.St.Inc("enum.cancel_midway")
+	}
 	for j := 0; j < bi.NWrites && j < 300; j++ {
 		u.Exec(map[string]int{"f.kind": 8, "f.pos": j, "f.pos2": 0, "f.sticky": 0, "f.caps": j & 1})
 		u.Exec(map[string]int{"f.kind": 8, "f.pos": j, "f.pos2": 1 + int(sim.SeedFor(int64(u.Seed), "partial", j)%7), "f.sticky": 0})
